@@ -831,3 +831,16 @@ Proof.
   assert (nts_max_packet_len <? zlen b = true) as -> by (apply Z.ltb_lt; unfold nts_max_packet_len; lia).
   reflexivity.
 Qed.
+
+(* the UDP layer delivers the payload the length field delimits, whenever the field does not
+   claim more bytes than the datagram has after the UDP header *)
+Lemma udp_payload_meets_spec : forall dl L rest, L <= 8 + zlen rest -> 8 + zlen rest <= dl ->
+  scion_udp_payload dl L rest = udp_payload_spec L rest.
+Proof.
+  intros dl L rest HL Hdl. unfold scion_udp_payload, udp_payload, udp_payload_spec.
+  assert (dl <? L = false) as -> by (apply Z.ltb_ge; lia).
+  destruct (8 <=? L) eqn:E8.
+  - apply Z.leb_le in E8. assert (L =? 0 = false) as -> by (apply Z.eqb_neq; lia).
+    assert (L <=? 8 + zlen rest = true) as -> by (apply Z.leb_le; lia). reflexivity.
+  - destruct (L =? 0); reflexivity.
+Qed.
